@@ -7,9 +7,10 @@ from .pred import lit_to_facts
 class PathView:
     """Resolve phi nodes along a concrete block path."""
 
-    def __init__(self, prog, body, path):
+    def __init__(self, prog, body, path, keep_headers=False):
         self.prog = prog
         self.body = body
+        self.keep_headers = keep_headers
         self.path = list(path)
         self.pos = {}
         for i, b in enumerate(self.path):
@@ -28,12 +29,14 @@ class PathView:
         if t[0] == "phi":
             b = t[1]
             i = self.pos.get(b)
+            if self.keep_headers and self.body.cfg.loop_of_header(b) is not None:
+                i = None
             if i is not None and i > 0:
                 pred = self.path[i - 1]
                 ins = self.s.phi_inputs(t)
                 if pred in ins:
                     # the incoming value is itself resolved against the prefix of the path
-                    sub = PathView(self.prog, self.body, self.path[:i])
+                    sub = PathView(self.prog, self.body, self.path[:i], self.keep_headers)
                     r = sub.resolve(ins[pred], depth + 1)
         elif t[0] in ("int", "float", "bool", "char", "str", "unit", "param", "upvar", "mutref", "unknown",
                       "fnref", "cref", "zst", "bytes"):
@@ -52,7 +55,7 @@ class PathView:
 
     def value_before_term(self, pk, block):
         i = self.pos[block]
-        sub = PathView(self.prog, self.body, self.path[:i + 1])
+        sub = PathView(self.prog, self.body, self.path[:i + 1], self.keep_headers)
         v = self.s.val(pk, block, "term")
         return self.prog.simp(sub.resolve(v), self.body)
 
@@ -61,14 +64,14 @@ class PathView:
         for a, b in zip(self.path, self.path[1:]):
             for lit in self.s.edge_literals(a, b):
                 i = self.pos[a]
-                sub = PathView(self.prog, self.body, self.path[:i + 1])
+                sub = PathView(self.prog, self.body, self.path[:i + 1], self.keep_headers)
                 lit2 = (lit[0], self.prog.simp(sub.resolve(lit[1]), self.body), lit[2])
                 out.extend(lit_to_facts(lit2))
         return out
 
     def call_args(self, block):
         i = self.pos[block]
-        sub = PathView(self.prog, self.body, self.path[:i + 1])
+        sub = PathView(self.prog, self.body, self.path[:i + 1], self.keep_headers)
         return tuple(self.prog.simp(sub.resolve(a), self.body) for a in self.s.call_args(block))
 
     def events(self, roots):
